@@ -39,6 +39,9 @@ TShift ==
 TTbRegion == /\ Ev("TbRegion") /\ UNCHANGED units
              /\ Chk("TablebaseUntouchedByStores", Tr[l].built /\ Tr[l].same /\ Tr[l].usedSize + Tr[l].tbEntries <= Tr[l].tableSize, Tr[l])
 TInit == l = 1 /\ units = {}
-TNext == TMeta \/ TUnits \/ THit \/ TIdx \/ TShift \/ TTbRegion
+\* answers of a resident tablebase for a sample of its positions before and after millions of ordinary stores and probes
+TTbAnswers == /\ Ev("TbAnswers") /\ UNCHANGED units
+              /\ Chk("ResidentTableAnswersUnchangedByHashTraffic", Tr[l].changed = 0 /\ Tr[l].answeredBefore > 0, <<Tr[l].sampled, Tr[l].answeredBefore, Tr[l].changed>>)
+TNext == TMeta \/ TUnits \/ THit \/ TIdx \/ TShift \/ TTbRegion \/ TTbAnswers
 Accepted == TLCGet("stats").diameter - 1 = Len(Tr) \/ (PrintT(<<"REJECTED_AT", TLCGet("stats").diameter>>) /\ FALSE)
 =============================================================================
